@@ -13,9 +13,23 @@ one() {
   out=$(GOVC_REPLAY_DIR=$WT/.replays timeout 900 /verif/bin/govc check --property $p --tier quick --no-evidence --repo $WT 2>&1); rc=$?
   rm -rf $WT
   n=$(echo "$out" | grep -c "^VIOLATION property=$p ")
-  if [ $rc -eq 1 ] && [ $n -ge 1 ]; then echo "$id $p caught ($n violations)"; else echo "$id $p MISSED (exit $rc)"; fi
+  obl=$(echo "$out" | grep "^VIOLATION" | sed 's|.*replay=[^ ]*/||; s|\.json.*||' | head -3 | tr '\n' ' ')
+  if [ $rc -eq 1 ] && [ $n -ge 1 ]; then echo "$id $p caught ($n violations) $obl"; else echo "$id $p MISSED (exit $rc)"; fi
 }
 export -f one
 echo $ids | tr ' ' '\n' | xargs -P 4 -I{} bash -c 'one {}' | sort | tee /verif/work/selftest.last
+# keep the record of what detects each change up to date (detected_by in meta.json)
+python3 - <<'PY'
+import json, re
+for line in open('/verif/work/selftest.last'):
+    m = re.match(r'(C\d\d\w) (C\d\d) caught \((\d+) violations\) ?(.*)', line.strip())
+    if not m:
+        continue
+    f = '/verif/seeded/%s/meta.json' % m.group(1)
+    meta = json.load(open(f))
+    meta['detected_by'] = {'check': '/verif/bin/govc check --property %s --tier quick' % m.group(2),
+                           'violations': int(m.group(3)), 'failing_obligations': m.group(4).split()}
+    json.dump(meta, open(f, 'w'), indent=1)
+PY
 if grep -q "MISSED\|APPLY-FAILED" /verif/work/selftest.last; then exit 1; fi
 exit 0
